@@ -141,7 +141,10 @@ class P2PNet(Engine):
                    ('addr', 'addrs', 1000), ('headers', 'headers', 2000), ('getheaders', 'have', 101), ('getblocks', 'have', 500),
                    # payloads whose LENGTH is a round binary number (a reader that fetches in chunks must get the last one right)
                    ('reject', 'payload-size', 1 << 20), ('reject', 'payload-size', 2 << 20), ('reject', 'payload-size', (1 << 20) + 1),
-                   ('reject', 'payload-size', 65536), ('alert', 'payload-size', 1 << 16)]
+                   ('reject', 'payload-size', 65536), ('alert', 'payload-size', 1 << 16)] + [
+                   # (round u) ... or an exact MULTIPLE of a round chunk size, binary or decimal (a writer or reader that works piecewise
+                   # must get the empty remainder right: 2 and 3 whole chunks, no tail)
+                   ('reject', 'payload-size', m_ * c_) for c_ in (1000, 4096, 10000, 32768, 50000, 60000, 64000, 100000) for m_ in (2, 3)]
 
     def systematic(self, prop, tier):
         plans = []
